@@ -229,11 +229,14 @@ def drive(component, trace_scripts, spec_only=False):
         m = DRV_LINE.match(line)
         if m:
             cur = {"id": m.group(1), "ops": int(m.group(2)), "model": m.group(3), "spec": m.group(4), "env": m.group(5),
-                   "tags": [t for t in m.group(6).split(",") if t], "detail": {}}
+                   "tags": [t for t in m.group(6).split(",") if t], "detail": {}, "more": []}
             res.append(cur)
         elif cur is not None and line.startswith("  ") and ": " in line:
             k, v = line.strip().split(": ", 1)
-            cur["detail"][k] = v
+            if k == "spec-more":
+                cur["more"] = v.split(" || ")
+            else:
+                cur["detail"][k] = v
     return res
 
 
@@ -257,6 +260,19 @@ def load_known(pid):
     return keys, lines
 
 
+def load_known_all():
+    """keys of every recorded finding, of any property"""
+    keys = set()
+    p = os.path.join(VERIF, "known_findings.txt")
+    if os.path.exists(p):
+        for line in open(p):
+            if line.startswith("finding:"):
+                m = re.search(r"key=(\S+)", line)
+                if m:
+                    keys.add(m.group(1))
+    return keys
+
+
 # ---- shrinking ------------------------------------------------------------------------------------
 
 def script_ops(lines):
@@ -274,7 +290,8 @@ def still_fails(component, ops, want, key, spec_only):
         return False
     r = r[0]
     if want == "spec":
-        return r["spec"] != "ok" and (key is None or finding_key(r["detail"].get("spec-detail")) == key)
+        keys = [finding_key(r["detail"].get("spec-detail"))] + [finding_key(d) for d in r.get("more", [])]
+        return r["spec"] != "ok" and (key is None or key in keys)
     if want == "model":
         return r["model"] != "ok"
     return False
